@@ -44,7 +44,7 @@ CLAIMED = {
                      "advance / close / drop / exhaust two result iterators) is dispatched by solver-checked forking; after every "
                      "step in_symbolic_mode(), the mode kind, the expression-context stack and the behaviour of @symbol "
                      "construction, @predicate calls and symbolic operators are compared with a 6-line reference stack machine. "
-                     "All histories of length <= H (5 quick, 7 thorough) are covered (coverage obligation); no data is involved, so "
+                     "All histories of length <= H (5 quick, 6 thorough) are covered (coverage obligation); no data is involved, so "
                      "the solver adds no generalisation beyond the bound."),
     "C09": dict(design_ref="DESIGN.md 7/C09",
                 text="Bounded-exhaustive symbolic execution: each query/rule (an, the, infer, Add-conclusion; @predicate function, "
